@@ -19,6 +19,7 @@ func init() {
 		Explain: "Decides the guard structure of quotaFloodPreventer.increaseLoad: a message of a peer that already has a quota record is accepted (nil) only on the branch where the disjunction of BOTH limit " +
 			"tests is false - isMaximumReached(max number of messages, received count) and isMaximumReached(max total size, received size) on that peer's own record - and both received counters were incremented " +
 			"(count by 1, size by the message size) before the tests; the only other accepting paths create the default quota for a peer seen for the first time. A missing test or a test on the wrong counter lets a peer exceed its quota. " +
+			"Looking a record up, counting on it and storing a new one is one exclusive critical section: every use of the records cache in a method that (itself or through the preventer's methods) also modifies it runs with mutOperation write-locked. " +
 			"Not decided (value-level): the numeric bounds (percent reserved arithmetic), eviction of quota records from the cache.",
 		Run: runC42,
 	})
@@ -174,4 +175,86 @@ func runC42(c *core.Ctx) {
 		}
 	}
 	c.Floor("C42/accept-only-under-quota", 6)
+	c42OneCriticalSection(c)
+}
+
+// c42OneCriticalSection: looking a peer's record up, counting the message on it and storing a new
+// record is one exclusive critical section. Every use of the records cache in a method of the
+// preventer that (itself or through the preventer's own methods) also modifies the cache, and
+// every modification, happens with mutOperation write-locked: under a shared lock concurrent
+// messages of one peer all miss, or all count on a stale value, and the peer exceeds its quota.
+func c42OneCriticalSection(c *core.Ctx) {
+	const pkg = "process/throttle/antiflood/floodPreventers"
+	mu := c.P.Field(pkg, "quotaFloodPreventer", "mutOperation")
+	cacheF := c.P.Field(pkg, "quotaFloodPreventer", "cacher")
+	if mu == nil || cacheF == nil {
+		c.Undecided("anchor", "quotaFloodPreventer.{mutOperation,cacher}", 0, "fields not found")
+		return
+	}
+	var fns []*ssa.Function
+	for _, f := range c.P.FuncsOfPkg(pkg) {
+		if f.Signature.Recv() != nil && strings.HasSuffix(f.Signature.Recv().Type().String(), "floodPreventers.quotaFloodPreventer") {
+			fns = append(fns, f)
+		}
+	}
+	readOnly := map[string]bool{"Get": true, "Peek": true, "Has": true, "Keys": true, "Len": true, "MaxSize": true, "IsInterfaceNil": true, "SizeInBytesContained": true}
+	cacheCall := func(in ssa.Instruction) (string, bool) {
+		cc := core.CallOf(in)
+		if cc == nil || !cc.IsInvoke() {
+			return "", false
+		}
+		if _, f := core.FieldLoad(cc.Value); f != cacheF {
+			return "", false
+		}
+		return cc.Method.Name(), true
+	}
+	mutates := map[*ssa.Function]bool{}
+	for changed := true; changed; {
+		changed = false
+		for _, f := range fns {
+			if mutates[f] {
+				continue
+			}
+			core.Instrs(f, func(in ssa.Instruction) {
+				if name, ok := cacheCall(in); ok && !readOnly[name] {
+					mutates[f] = true
+				}
+				if cc := core.CallOf(in); cc != nil && cc.StaticCallee() != nil && mutates[cc.StaticCallee()] {
+					mutates[f] = true
+				}
+			})
+			if mutates[f] {
+				changed = true
+			}
+		}
+	}
+	entry := core.EntryModes(fns, mu)
+	n := 0
+	for _, f := range fns {
+		if !mutates[f] {
+			continue
+		}
+		modes := core.LockModes(f, mu, entry[f])
+		k := 0
+		core.Instrs(f, func(in ssa.Instruction) {
+			name, ok := cacheCall(in)
+			if !ok || name == "IsInterfaceNil" {
+				return
+			}
+			if fa, isFa := core.CallOf(in).Value.(*ssa.UnOp); isFa {
+				if a, isA := fa.X.(*ssa.FieldAddr); isA {
+					if _, fresh := a.X.(*ssa.Alloc); fresh {
+						return // constructor
+					}
+				}
+			}
+			n++
+			k++
+			c.Sites++
+			c.Check(modes[in] == core.ModeW, "C42/counting-is-one-critical-section", fmt.Sprintf("%s/cacher.%s#%d", fname(f), name, k), in.Pos(),
+				"cacher."+name+" while mutOperation is write-locked",
+				fmt.Sprintf("cacher.%s in a method that also modifies the records cache runs while mutOperation is only %s: lookup, count and store of one peer's record are no longer atomic - concurrent messages of that peer each see a miss (or a stale count) and all are accepted", name, modes[in]))
+		})
+	}
+	c.Floor("C42/counting-is-one-critical-section", 3)
 }
